@@ -192,7 +192,7 @@ func (in *instance) probeReleased(th int, a acq) {
 		}
 		how = syscall.LOCK_SH
 	}
-	f, err := os.OpenFile(filepath.Join(in.dir, a.Path), os.O_RDWR, 0)
+	f, err := os.OpenFile(pathOf(in.dir, a.Path), os.O_RDWR, 0)
 	if err != nil {
 		return
 	}
@@ -230,6 +230,10 @@ func (in *instance) body() {
 		}
 	}
 	os.Mkdir(filepath.Join(in.dir, "d"), 0o777)
+	os.MkdirAll(filepath.Join(in.dir, "sub", "deep"), 0o777)
+	os.Symlink(filepath.Join("sub", "deep"), filepath.Join(in.dir, "lnk"))
+	os.WriteFile(filepath.Join(in.dir, "sub", "sp"), []byte("x"), 0o666)
+	os.Remove(filepath.Join(in.dir, "sp"))
 	if _, err := os.Lstat(filepath.Join(in.dir, "f")); err != nil {
 		if err := syscall.Mkfifo(filepath.Join(in.dir, "f"), 0o666); err != nil {
 			kit.Harness("mkfifo: %v", err)
@@ -281,10 +285,21 @@ func (in *instance) fail(msg string) {
 
 func (in *instance) one(th int, a acq) { acquireOnce(in, in.dir, in.shared, th, a) }
 
+// pathOf: the file a path letter stands for. "s" is spelled through a symbolic
+// link to a directory two levels down followed by "..": the kernel resolves
+// it to <dir>/sub/sp, while the lexically cleaned string would name <dir>/sp
+// (every holder is given the same string; they must meet on the same file).
+func pathOf(dir, p string) string {
+	if p == "s" {
+		return dir + "/lnk/../sp"
+	}
+	return filepath.Join(dir, p)
+}
+
 // acquireOnce performs one acquisition / critical section / release on the real
 // lockedfile package and reports to m.
 func acquireOnce(m monitor, dir string, shared *lockedfile.Mutex, th int, a acq) {
-	path := filepath.Join(dir, a.Path)
+	path := pathOf(dir, a.Path)
 	if a.Rel {
 		path = a.Path
 	}
@@ -748,6 +763,12 @@ func scenarios(th bool) []scenario {
 			scenario{"excl+trunc(new)||create(new)", [][]acq{{exT}, {a("create", "n")}}, fb, false},
 			scenario{"excl(existing)||W", [][]acq{{a(fmt.Sprintf("flags:%d", mode|os.O_CREATE|os.O_EXCL), "p")}, {a("edit", "p")}}, fb, false})
 	}
+	// one path string that the kernel and a lexical clean-up read differently
+	scs = append(scs,
+		scenario{"M(link/..)||edit(link/..)", [][]acq{{a("mutex", "s")}, {a("edit", "s")}}, fb, false},
+		scenario{"M(link/..)||R(link/..)", [][]acq{{a("mutex", "s")}, {a("open", "s")}}, fb, false},
+		scenario{"edit(link/..)||create(link/..)", [][]acq{{a("edit", "s")}, {a("create", "s")}}, fb, false},
+		scenario{"M(link/..)||M(link/..)", [][]acq{{a("mutex", "s")}, {a("mutex", "s")}}, fb, false})
 	// P-mode: the same holders as separate OS processes (no shared *Mutex value there)
 	pb := 2
 	if th {
